@@ -845,7 +845,7 @@ class C08(Prop):
             hs, order, before, after = real_out["states"][0]
             if any(o != real_out["first"] for o in state["outs"]):
                 return {"real": "every dump = the first text", "model": [(_excerpt(o, real_out["first"]) if isinstance(o, str) else o) for o in state["outs"]]}
-            if after is not None and state["after"] != after:
+            if after is not None and state["after"] != dict((k, after[k]) for k in ("version", "layered") if k in after):
                 return {"real": {"object after the dumps": after}, "model": {"object after the dumps": state["after"]}}
         return None
 
@@ -902,7 +902,8 @@ class C08(Prop):
             exp = expected_after(fmt, before)
             if after != exp:
                 return {"kind": "state", "observed": {"hashseed": hs, "order": order, "after": after},
-                        "required": {"after": exp, "why": "a dump may only set header.version and a layered variant's release.is_layered"}}
+                        "required": {"after": exp, "why": "a dump may only set header.version and a layered variant's release.is_layered; every other public "
+                                                                "attribute (content_sha: the adapter's full snapshot) stays as it was"}}
         if real_out.get("issues"):
             # rebuilding the SAME content through another public idiom (remove + re-add) was refused by the container itself
             return {"kind": "container-op-raised", "observed": real_out["issues"][0],
